@@ -151,6 +151,42 @@ theorem mapInPlace_view {α} (f : α → α) (m : Mem α) (s : Slice)
   rw [mapInPlaceFrom_getElem? f s s.len 0 m ha hl (by omega) k]
   simp
 
+/-! ### the in-place loop touches only its own array; copies -/
+
+theorem store_getD_other {α} (m : Mem α) (s : Slice) (i : Nat) (v : α) (a : Nat) (h : a ≠ s.arr) :
+    (store m s i v).getD a [] = m.getD a [] := by
+  unfold store
+  simp only [List.getD_eq_getElem?_getD]
+  rw [List.getElem?_set_ne (by omega)]
+
+theorem mapInPlaceFrom_getD_other {α} (f : α → α) (s : Slice) (a : Nat) (h : a ≠ s.arr) :
+    ∀ (n i : Nat) (m : Mem α), (mapInPlaceFrom f s n i m).getD a [] = m.getD a [] := by
+  intro n
+  induction n with
+  | zero => intro i m; rfl
+  | succ n ih =>
+    intro i m
+    simp only [mapInPlaceFrom]
+    split
+    · rw [ih, store_getD_other _ _ _ _ _ h]
+    · rfl
+
+theorem getD_append_left {α} (m : Mem α) (x : List α) (a : Nat) (h : a < m.length) :
+    (m ++ [x]).getD a [] = m.getD a [] := by
+  simp [List.getD_eq_getElem?_getD, List.getElem?_append_left h]
+
+theorem getD_append_new {α} (m : Mem α) (x : List α) : (m ++ [x]).getD m.length [] = x := by
+  simp [List.getD_eq_getElem?_getD]
+
+/-- the copy shows what the original shows -/
+theorem view_copySlice {α} (m : Mem α) (s : Slice) : view (copySlice m s).1 (copySlice m s).2 = view m s := by
+  simp only [copySlice]
+  unfold view
+  simp only [getD_append_new, List.drop_zero]
+  apply List.take_of_length_le
+  simp only [List.length_take, List.length_drop]
+  omega
+
 /-! ### replay -/
 
 theorem replay_local {Px Col} (ds : List (Draw Px Col)) (p : Px) (i1 i2 : Px → Col) (h : i1 p = i2 p) :
